@@ -336,6 +336,20 @@ def apply_op(env, table, frame_el, m, op, wit):
     if kind == "text":
         m.text[(op[1], op[2])] = op[3].split("\n")
         raised = call(lambda: setattr(table.cell(op[1], op[2]), "text", op[3]))
+    elif kind == "fld":
+        from pptx.oxml import parse_xml
+
+        m.text[(op[1], op[2])] = [op[3]]
+        n["field-only-cells"] += 1
+
+        def put_field():
+            txBody = table.cell(op[1], op[2]).text_frame._txBody
+            for p in txBody.findall("{%s}p" % A):
+                txBody.remove(p)
+            txBody.append(parse_xml('<a:p xmlns:a="%s"><a:fld id="{B6F15528-21DE-4FAA-801E-634DDDAF4B2B}" type="slidenum"><a:rPr lang="en-US"/>'
+                                    '<a:t>%s</a:t></a:fld><a:endParaRPr lang="en-US"/></a:p>' % (A, op[3])))
+
+        raised = call(put_field)
     elif kind == "rowh":
         m.heights[op[1]] = op[2]
         m.frame_h = sum(m.heights)
@@ -355,7 +369,18 @@ def apply_op(env, table, frame_el, m, op, wit):
 
 
 def prefill_ops(r, c):
-    return [["text", k // c, k % c, "k%da\nk%db" % (k, k) if k % 4 == 3 else "k%d" % k] for k in range(r * c) if k % 4 != 1]
+    """Every 4th cell stays empty, every 4th holds two paragraphs; of the rest some hold only a line break or only a field."""
+    out = []
+    for k in range(r * c):
+        if k % 4 == 1:
+            continue
+        if k % 8 == 6:
+            out.append(["text", k // c, k % c, "\v"])
+        elif k % 8 == 2:
+            out.append(["fld", k // c, k % c, "k%d" % k])
+        else:
+            out.append(["text", k // c, k % c, "k%da\nk%db" % (k, k) if k % 4 == 3 else "k%d" % k])
+    return out
 
 
 def orientations(t, l, b, g):
@@ -507,7 +532,9 @@ def random_op(rnd, m, profile, step):
         return ["split", cell[0], cell[1]]
     if kind == "text":
         t = "t%d" % step
-        return ["text", cell[0], cell[1], rnd.choice(("", t, t, t + "a\n" + t + "b", t + "a\n\n" + t + "b", "\n", t + "\vbr", "ü" + t))]
+        if rnd.random() < 0.12:  # text held by a field only (slide number, date), as PowerPoint authors it: no a:r in the paragraph
+            return ["fld", cell[0], cell[1], t]
+        return ["text", cell[0], cell[1], rnd.choice(("", t, t, t + "a\n" + t + "b", t + "a\n\n" + t + "b", "\n", t + "\vbr", "ü" + t, "\v", "\v\v"))]
     size = rnd.choice((0, 1, rnd.randrange(5000000), rnd.randrange(5000000)))
     return ["rowh", cell[0], size] if kind == "rowh" else ["colw", cell[1], size]
 
